@@ -106,13 +106,10 @@ type Msg struct {
 
 var (
 	// Sizes per tier (identity payload sizes).
-	SizesQuick    = []int{0, 1, 4096, 65537}
-	SizesThorough = []int{0, 1, 2, 4095, 4096, 4097, 32768, 65536, 65537, 1 << 20}
-	// SizesWide: every size class of SizesThorough below 1 MiB plus the buffer constants of the code the body
-	// passes through (io.ReadAll / bytes.Buffer start at 512 bytes, bufio at 4096, io.Copy at 32 KiB), each
-	// with a value below, at and above it.
-	SizesWide         = []int{0, 1, 2, 511, 512, 513, 4095, 4096, 4097, 32767, 32768, 32769, 65536, 65537}
-	SizesWideThorough = []int{0, 1, 2, 511, 512, 513, 4095, 4096, 4097, 32767, 32768, 32769, 65536, 65537, 1 << 20}
+	SizesQuick = []int{0, 1, 4096, 65537}
+	// SizesThorough: the buffer constants of the code a body passes through (io.ReadAll / bytes.Buffer start at
+	// 512 bytes, bufio at 4096, io.Copy at 32 KiB, 64 KiB), each with a value below, at and above it, and 1 MiB.
+	SizesThorough = []int{0, 1, 2, 511, 512, 513, 4095, 4096, 4097, 32767, 32768, 32769, 65536, 65537, 1 << 20}
 
 	ChunkingsQuick    = []string{"whole", "first1", "fixed1000"}
 	ChunkingsThorough = []string{"whole", "first1", "fixed1000", "fixed4096", "fixed7"}
@@ -125,8 +122,8 @@ var (
 	TrailerPool = []KV{{"X-T1", "v1"}, {"X-T2", "second value"}}
 
 	// entries 0..3 are enumerated by HeaderSpace; entry 4 (a percent-encoded value that is not UTF-8) by EdgeSpace
-	QueryRaw   = []string{"", "a=1", "x=1&y=%20z%26&x=3&empty=", "q=a+b&%D0%BA=%D0%B2", "b=%FF%FE&ok=1"}
-	QueryTruth = [][]KV{nil, {{"a", "1"}}, {{"x", "1"}, {"y", " z&"}, {"x", "3"}, {"empty", ""}}, {{"q", "a b"}, {"к", "в"}}, {{"b", "\xff\xfe"}, {"ok", "1"}}}
+	QueryRaw           = []string{"", "a=1", "x=1&y=%20z%26&x=3&empty=", "q=a+b&%D0%BA=%D0%B2", "b=%FF%FE&ok=1"}
+	QueryTruth         = [][]KV{nil, {{"a", "1"}}, {{"x", "1"}, {"y", " z&"}, {"x", "3"}, {"empty", ""}}, {{"q", "a b"}, {"к", "в"}}, {{"b", "\xff\xfe"}, {"ok", "1"}}}
 	headerSpaceQueries = 4
 
 	ReqCookieHeaders = [][]string{nil, {"a=1"}, {"a=1; b=two"}, {"a=1", "b=2"}}
